@@ -27,10 +27,18 @@
   pass over several periods of the specification; `n` turns = the first `m` periods, `n ≤ m ≤ 24·n` resp.
   `48·n`, `1440·n`, `86400·n`).  All of these are assembled in `iter_eq_spec_supported_partial` over the
   decidable predicate `SupportedBy` (Spec/RRuleSupported.lean; driver op `rrule.supported`).
-  Missing: MINUTELY with BYHOUR and BYMINUTE together, SECONDLY with BYHOUR / BYMINUTE / BYSECOND (the reachability
-  loops `minutelyLoop` / `secondlyLoop` beyond their first pass are only proved monotone), BYWEEKNO / BYEASTER
-  under WEEKLY (BYWEEKNO under MONTHLY and DAILY..SECONDLY is covered) and BYEASTER outside YEARLY, nth BYDAY with plain BYDAY (all of it inside D-C01a), BYWEEKNO with BYEASTER or
-  nth BYDAY.  Everything else below — including
+  And `iter_eq_spec_secondly_byhour_byminute_partial` / `iter_eq_spec_secondly_bysecond_partial`: SECONDLY with any
+  combination of BYHOUR / BYMINUTE / BYSECOND under the decidable reachability hypotheses `reachableS` / `reachableSS`
+  (the multi-pass loop `secondlyLoop`, with `__mod_distance` as its inner step when BYSECOND is given, stops at the
+  least grid second whose hour, minute and second are listed).
+  And `iter_eq_spec_minutely_byhour_byminute_partial`: MINUTELY with BYMINUTE and optional BYHOUR (in particular both
+  together) under `reachableMM`.
+  And `iter_eq_spec_byeaster_below_yearly_partial`: BYEASTER (−80..250, 1583..4099) under DAILY and every sub-daily family.
+  And `iter_eq_spec_monthly_easter_partial` / `iter_eq_spec_weekly_easter_partial` (WEEKLY: offsets −74..250, the exact class).
+  And `iter_eq_spec_nth_weekno_partial`: nth BYDAY together with BYWEEKNO (MONTHLY, YEARLY with / without BYMONTH).
+  And `iter_eq_spec_easter_mixed_partial`: BYEASTER with nth BYDAY (MONTHLY / YEARLY) and YEARLY BYWEEKNO + BYEASTER.
+  Missing: BYEASTER together with BYWEEKNO below YEARLY, nth BYDAY + BYWEEKNO + BYEASTER all three, nth BYDAY with plain BYDAY
+  (all of it inside D-C01a).  Everything else below — including
   `iter_strictMono` for all seven frequencies — is proved for ALL rules / all argument sets, with no
   `Supported` hypothesis (so also inside the known-defect classes).
 -/
@@ -53,6 +61,17 @@ import DateutilVerif.Proofs.RRuleAmbient
 import DateutilVerif.Proofs.RRuleDailyW
 import DateutilVerif.Proofs.RRuleMonthlyW
 import DateutilVerif.Proofs.RRuleMinutelyBH
+import DateutilVerif.Proofs.RRuleSecondlyBS
+import DateutilVerif.Proofs.RRuleMinutelyBHM
+import DateutilVerif.Proofs.RRuleWeeklyW
+import DateutilVerif.Proofs.RRuleInterleave
+import DateutilVerif.Proofs.RRuleDropInterval
+import DateutilVerif.Proofs.RRuleNthWYearly
+import DateutilVerif.Proofs.RRuleNthWYM
+import DateutilVerif.Proofs.RRuleNthEYearly
+import DateutilVerif.Proofs.RRuleNthEYM
+import DateutilVerif.Proofs.RRuleWeeknoEYearly
+import DateutilVerif.Proofs.RRuleConstructSetIter
 
 namespace C01
 open RRule Cal RRule.Tables
@@ -209,6 +228,31 @@ example : (do let r ← construct { freq := 3, dtstart := ⟨2000, 1, 1, 0, 0, 0
               let r' ← construct (origArgs { freq := 3, dtstart := ⟨2000, 1, 1, 0, 0, 0, 0⟩, bysetpos := some [] } r)
               pure (r.bysetpos, r'.bysetpos)) = .ok (some [], none) := by decide +kernel
 
+/-- **the constructed rule depends only on the SET of members of each BY list** — `set(bymonth)`, `set(byhour)`, … in
+    `__init__`: repeated members, any order, any container spelling of BYMONTH / BYMONTHDAY / BYYEARDAY / BYWEEKNO / BYDAY /
+    BYHOUR / BYMINUTE / BYSECOND give the SAME rule object state (normalised tuples, positive / negative month-day split,
+    plain / nth weekday split, reachability filter of the own unit, time set) or the same ValueError — for every frequency.
+    BYSETPOS is kept as given (`tuple(bysetpos)`: equal here) and BYEASTER as `tuple(sorted(byeaster))` (equal up to order
+    here; with repetitions the rule differs in that field only and iterates identically: `byeaster_repetitions_invisible`).
+    The harness feeds repeated / unsorted members for every BY part x every frequency to constructor and iteration. -/
+theorem construct_perm_dup_invariant (a a' : Args) (h : SetEquiv a a') : construct a = construct a' :=
+  RRule.construct_perm_dup_invariant a a' h
+
+/-- … and repeated BYEASTER members change nothing that is iterated: same values, same terminal status, all fuels -/
+theorem byeaster_repetitions_invisible (a : Args) (el el' : List Int) (ha : a.byeaster = some el)
+    (hm : ∀ x, x ∈ el ↔ x ∈ el') (r r' : Rule) (h : construct a = .ok r)
+    (h' : construct { a with byeaster := some el' } = .ok r') (n : Nat) : iter r' n = iter r n :=
+  construct_easter_dup_iter a el el' ha hm r r' h h' n
+
+-- BYHOUR 20,8,20 / BYSECOND 5,5 against 8,20 / 5: the same rule
+example : SetEquiv { freq := 3, dtstart := ⟨2024, 2, 28, 9, 30, 0, 0⟩, byhour := some [20, 8, 20], bysecond := some [5, 5] }
+                   { freq := 3, dtstart := ⟨2024, 2, 28, 9, 30, 0, 0⟩, byhour := some [8, 20], bysecond := some [5] } :=
+  { freq := rfl, dtstart := rfl, tz := rfl, interval := rfl, wkst := rfl, count := rfl, untilDT := rfl, bysetpos := rfl,
+    byeaster := Or.inl ⟨rfl, rfl⟩, bymonth := Or.inl ⟨rfl, rfl⟩, bymonthday := Or.inl ⟨rfl, rfl⟩,
+    byyearday := Or.inl ⟨rfl, rfl⟩, byweekno := Or.inl ⟨rfl, rfl⟩, byweekday := Or.inl ⟨rfl, rfl⟩,
+    byhour := Or.inr ⟨_, _, rfl, rfl, by intro x; simp; omega⟩, byminute := Or.inl ⟨rfl, rfl⟩,
+    bysecond := Or.inr ⟨_, _, rfl, rfl, by intro x; simp⟩ }
+
 /-- **the ambient first weekday is an input only when `wkst` is not supplied.**  `constructW k a` is
     `rrule.__init__` while `calendar.firstweekday()` is `k` (process-wide, `calendar.setfirstweekday`);
     `construct` is the case `k = 0`, the interpreter's default.  With an explicit `wkst` — including `wkst=MO`
@@ -267,27 +311,27 @@ theorem iter_count (r : Rule) (n : Nat) (c : Int) (hc : r.count = some c) :
     exact run_count r n st c ((init_count r st hinit).trans hc)
 
 /-- **strictly increasing, no duplicates** — every rule the constructor accepts (valid start,
-    INTERVAL ≥ 1, week start 0..6), all seven frequencies, every combination of BY parts including
+    week start 0..6; INTERVAL ≥ 1 is now implied by `construct a = .ok r`, see `construct_interval_positive`), all seven frequencies, every combination of BY parts including
     BYSETPOS and the known-defect classes, any COUNT / UNTIL, every number of periods: the yielded
     instants are strictly increasing.  (Invariants: the cursor is a valid date with rebuilt year
     facts; `__mod_distance` and the MINUTELY / SECONDLY reachability loops advance by a positive
     multiple of INTERVAL; consecutive periods occupy disjoint increasing windows; inside a period the
     candidates are `sorted days × strictly sorted time set`, or the sorted duplicate-free BYSETPOS list.) -/
-theorem iter_strictMono (a : Args) (r : Rule) (h : construct a = .ok r) (hi : 1 ≤ a.interval)
+theorem iter_strictMono (a : Args) (r : Rule) (h : construct a = .ok r)
     (hw : 0 ≤ a.wkst.getD 0 ∧ a.wkst.getD 0 ≤ 6) (hv : a.dtstart.Valid)
     (hf : 0 ≤ a.freq ∧ a.freq ≤ 6) (n : Nat) :
     (iter r n).1.Pairwise (fun x y => x.secs < y.secs) :=
-  iter_strictMono_all a r h hi hw hv hf n
+  iter_strictMono_all' a r h hw hv hf n
 
 /-- **real datetimes, strictly increasing at the `datetime` level** — all seven frequencies, every
     constructed rule: every yielded value went through a successful `date.fromordinal` (ordinal in
     1..3652059) and carries a valid wall time of the period's time set, so it is a valid `datetime`
     with whole seconds; and the `datetime`s themselves are strictly increasing. -/
-theorem iterDT_strictMono_valid (a : Args) (r : Rule) (h : construct a = .ok r) (hi : 1 ≤ a.interval)
+theorem iterDT_strictMono_valid (a : Args) (r : Rule) (h : construct a = .ok r)
     (hw : 0 ≤ a.wkst.getD 0 ∧ a.wkst.getD 0 ≤ 6) (hv : a.dtstart.Valid)
     (hf : 0 ≤ a.freq ∧ a.freq ≤ 6) (n : Nat) :
     (iterDT r n).1.Pairwise (fun s t => s.toMicros < t.toMicros) ∧ ∀ t ∈ (iterDT r n).1, t.Valid ∧ t.us = 0 :=
-  RRule.iterDT_strictMono_valid a r h hi hw hv hf n
+  RRule.iterDT_strictMono_valid' a r h hw hv hf n
 
 /-- **whole seconds**: every yielded datetime has `microsecond = 0` (the tzinfo is the rule's
     opaque tag `r.tz`, attached to every value by construction) -/
@@ -297,6 +341,39 @@ theorem iter_whole_seconds (r : Rule) (n : Nat) : ∀ t ∈ (iterDT r n).1, t.us
   simp only [List.mem_map] at ht
   obtain ⟨x, _, rfl⟩ := ht
   rfl
+
+/-! ### 3b. one rule object, several live iterators -/
+
+/-- **interleaved iterators of one rule object do not interfere.**  The object is the immutable normalised `Rule` plus the one
+    attribute an iteration writes, `_len` (`Obj`); every live iterator has its own generator state (`IterSlot`: `State`, what it
+    has yielded, how it ended); an event creates an iterator in a slot (`iter(obj)`) or runs one turn of a slot's `while True`
+    loop.  For EVERY event list — any interleaving of any number of iterators, which also covers `between` / `after` /
+    `count` / indexing running in between, each being a fresh iterator advanced some turns —
+    (i) the rule is never changed, (ii) what slot `j` holds after the history is what it holds after ITS OWN events alone, and
+    (iii) an iterator created and advanced `n` turns holds exactly `(iter rule n).1`, the sequence a fresh iterator over a
+    fresh object sees: the iteration state is a function of the rule and of the number of turns of THAT iterator.  (`init` and
+    `step` take the `Rule`, not the `Obj`: `_len` is never read.  The tie to the code is the shared-state audit of
+    `rrule._iter` / `_iterinfo` — the only attribute of the rule object they write is `_len`, `_iterinfo` is a local — and the
+    interleaved-history stream of the harness.) -/
+theorem interleaved_iterators_independent (o : Obj) (m : Slots) (es : List Ev) (j : Nat) :
+    (exec o m es).1.rule = o.rule ∧
+    (exec o m es).2 j = (exec o m (es.filter (fun e => e.slot == j))).2 j ∧
+    (∀ (n : Nat) (pre : List Ev) (st0 : State), init o.rule = .ok st0 →
+      es.filter (fun e => e.slot == j) = pre ++ Ev.create j :: List.replicate n (Ev.turn j) →
+      ∃ s, (exec o m es).2 j = some s ∧ s.out = (iter o.rule n).1) :=
+  ⟨interleave_rule_const o m es, interleave_noninterference o m es j,
+   fun n pre st0 hinit hes => by
+     obtain ⟨s, h1, _, h3⟩ := interleave_eq_run o m es j n pre st0 hinit hes
+     exact ⟨s, h1, h3⟩⟩
+
+-- two iterators over one DAILY rule (COUNT=3), interleaved, slot 0 re-created at the end; the turn that meets COUNT writes `_len`
+example : (match construct { freq := 3, dtstart := ⟨2024, 2, 28, 9, 0, 0, 0⟩, count := some 3 } with
+    | .ok r =>
+      let p := exec { rule := r, len := none } (fun _ => none)
+        [.create 0, .turn 0, .create 1, .turn 0, .turn 1, .turn 1, .turn 0, .turn 1, .turn 1, .create 0, .turn 0]
+      (slotDates p 0, slotDates p 1, p.1.len)
+    | .error _ => ([], [], none)) =
+    ([(2024, 2, 28)], [(2024, 2, 28), (2024, 2, 29), (2024, 3, 1)], some 3) := by decide +kernel
 
 /-! ### 4. periods: day sets and the advance of the calendar frequencies -/
 
@@ -449,6 +526,51 @@ theorem iter_eq_spec_monthly_weekno_partial (a : Args) (r : Rule) (wa : WeeknoMA
     (iter r n).1 = Spec.RRule.occ a n :=
   iter_eq_spec_monthly_weekno wa h n hm
 
+/-- **`iter_eq_spec`, proved portion, WEEKLY with BYWEEKNO** on the complement of D-C01c: INTERVAL ≥ 1, valid start, week
+    start 0..6, UNTIL not before the start, BYSETPOS only with the start on the week start (outside D-C01e), any BYMONTH /
+    BYMONTHDAY (non-zero) / BYYEARDAY / BYDAY / time parts, any COUNT, no BYEASTER.  A week that begins in late December reads
+    the 7-day tail of the week-number mask; `buildWnomask_tail` shows that the part of the tail such a week can read is right:
+    the old year's last week running over the year end (marked by the main loop) and the new year's week 1 begun in the old
+    year (the `if 1 in byweekno` block). -/
+theorem iter_eq_spec_weekly_weekno_partial (a : Args) (r : Rule) (wa : WeeklyWArgs a) (h : construct a = .ok r)
+    (n : Nat) (hn : W0 a + 7 * (n * a.interval) + 7 ≤ maxOrdinal + 1) :
+    (iter r n).1 = Spec.RRule.occ a n :=
+  iter_eq_spec_weekly_weekno wa h n hn
+
+/-- **`iter_eq_spec`, proved portion, nth BYDAY together with BYWEEKNO** (nth members only = outside D-C01a; BYWEEKNO on the
+    complement of D-C01c; week start 0..6; no BYEASTER): MONTHLY, YEARLY without BYMONTH (ordinals counted inside the year) and
+    YEARLY with BYMONTH (inside each listed month).  With BYDAY given, neither the constructor nor the specification's date
+    predicate looks at BYWEEKNO anywhere else, so the argument side is the nth family on the arguments without BYWEEKNO ∧ the
+    week clause; the model side carries both masks. -/
+theorem iter_eq_spec_nth_weekno_partial (a : Args) (r : Rule) (h : construct a = .ok r) (n : Nat) :
+    (NthWMArgs a → (a.dtstart.y * 12 + (a.dtstart.m - 1) + n * a.interval) / 12 ≤ 9999 → (iter r n).1 = Spec.RRule.occ a n) ∧
+    (NthWYArgs a → a.dtstart.y + n * a.interval ≤ 9999 → (iter r n).1 = Spec.RRule.occ a n) ∧
+    (NthWYMArgs a → a.dtstart.y + n * a.interval ≤ 9999 → (iter r n).1 = Spec.RRule.occ a n) :=
+  ⟨fun na hm => iter_eq_spec_monthly_nth_weekno na h n hm, fun na hy => iter_eq_spec_yearly_nth_weekno na h n hy,
+   fun na hy => iter_eq_spec_yearly_bymonth_nth_weekno na h n hy⟩
+
+-- the last Friday of the month when it lies in week 4, 13 or the last week of the year
+example : NthWMArgs { freq := 1, dtstart := ⟨2024, 1, 1, 18, 0, 0, 0⟩, byweekday := some [(4, -1)], byweekno := some [4, 13, -1] } :=
+  ⟨rfl, by decide, by decide, by decide, rfl, by intro x hx; simp at hx, ⟨[(4, -1)], rfl, by decide, by decide⟩,
+   ⟨[4, 13, -1], rfl, by decide, ⟨by decide, by decide⟩⟩⟩
+
+/-- **`iter_eq_spec`, proved portion, BYEASTER together with nth BYDAY or with BYWEEKNO** (offsets −80..250, years 1583..4099):
+    MONTHLY / YEARLY / YEARLY+BYMONTH with nth BYDAY (nth members only) and BYEASTER, no BYWEEKNO; YEARLY with BYWEEKNO (complement
+    of D-C01c, week start 0..6) and BYEASTER, plain BYDAY allowed. -/
+theorem iter_eq_spec_easter_mixed_partial (a : Args) (r : Rule) (h : construct a = .ok r) (n : Nat) (hlo : 1583 ≤ a.dtstart.y) :
+    (NthEMArgs a → (a.dtstart.y * 12 + (a.dtstart.m - 1) + n * a.interval) / 12 ≤ 4099 → (iter r n).1 = Spec.RRule.occ a n) ∧
+    (NthEYArgs a → a.dtstart.y + n * a.interval ≤ 4099 → (iter r n).1 = Spec.RRule.occ a n) ∧
+    (NthEYMArgs a → a.dtstart.y + n * a.interval ≤ 4099 → (iter r n).1 = Spec.RRule.occ a n) ∧
+    (WeeknoEYArgs a → a.dtstart.y + n * a.interval ≤ 4099 → (iter r n).1 = Spec.RRule.occ a n) :=
+  ⟨fun na hm => iter_eq_spec_monthly_nth_easter na h n hlo hm, fun na hy => iter_eq_spec_yearly_nth_easter na h n hlo hy,
+   fun na hy => iter_eq_spec_yearly_bymonth_nth_easter na h n hlo hy,
+   fun wa hy => iter_eq_spec_yearly_weekno_easter wa h n hlo hy⟩
+
+-- Easter Sundays and Mondays that fall in week 14 or 15
+example : WeeknoEYArgs { freq := 0, dtstart := ⟨2024, 1, 1, 10, 0, 0, 0⟩, byweekno := some [14, 15], byeaster := some [0, 1] } :=
+  ⟨rfl, by decide, by decide, by decide, by intro x hx; simp at hx, by intro w hw; simp at hw,
+   ⟨[14, 15], rfl, by decide, ⟨by decide, by decide⟩⟩, ⟨[0, 1], rfl, by decide, by decide⟩⟩
+
 /-- **`iter_eq_spec`, proved portion, DAILY with BYWEEKNO** — and the same extension holds in the five sub-daily
     theorems below: their argument classes (`HourlyArgs`, `HourlyByArgs`, `MinutelyArgs`, `MinutelyByArgs`,
     `SecondlyArgs`) take `WArg a`: BYWEEKNO absent, or a non-empty list on the complement of D-C01c (a listed
@@ -554,7 +676,7 @@ theorem orbit_period_window (interval base : Int) (hb : 0 < base) (k j : Nat) :
     multi-pass loop never exhausts its bound and `n` turns correspond to `m` periods, `n ≤ m ≤ 2880·n`.
     ON THE COMPLEMENT (`¬ reachableHourM a`) the recurrence set is EMPTY and the generator does not stop but raises
     `ValueError("Invalid combination of interval and byhour resulting in empty rule.")` at the first `next()`:
-    known finding D-C01g (`rrule(MINUTELY, interval=120, byhour=[1], dtstart=datetime(2024,1,1,0,0))`); the model
+    which the property allows ("raises ValueError when first iterated"; former finding D-C01g, withdrawn) (`rrule(MINUTELY, interval=120, byhour=[1], dtstart=datetime(2024,1,1,0,0))`); the model
     reproduces it (`minutelyLoop` returns the same ValueError). -/
 theorem iter_eq_spec_minutely_byhour_partial (a : Args) (r : Rule) (ma : MinutelyBHArgs a) (h : construct a = .ok r)
     (n : Nat)
@@ -563,12 +685,100 @@ theorem iter_eq_spec_minutely_byhour_partial (a : Args) (r : Rule) (ma : Minutel
     ∃ m, n ≤ m ∧ m ≤ 2880 * n ∧ (iter r n).1 = Spec.RRule.occ a m :=
   iter_eq_spec_minutely_byhour ma h n hle
 
+/-- **`iter_eq_spec`, proved portion, MINUTELY with BYMINUTE and optional BYHOUR — in particular BYHOUR and BYMINUTE
+    together** (BYMINUTE with any members, BYHOUR absent or non-empty, BYSECOND members 0..59) under the decidable
+    reachability hypothesis `reachableMM a`: some minute of the grid has a listed hour and a listed minute.  The inner step
+    of `minutelyLoop` is `__mod_distance` over the minutes (exact; it cannot fall off its loop), a pass moves over grid
+    minutes whose minute is unlisted, and the loop stops at the LEAST grid minute with both parts listed
+    (`minutelyLoop_bm`); `n ≤ m ≤ 2880·n`. -/
+theorem iter_eq_spec_minutely_byhour_byminute_partial (a : Args) (r : Rule) (ma : MinutelyBHMArgs a)
+    (h : construct a = .ok r) (n : Nat)
+    (hle : (Spec.RRule.startOrd a * 24 + a.dtstart.hh) * 60 + a.dtstart.mm + (2880 * n + 1440) * a.interval + 1439 <
+      (maxOrdinal + 1) * 1440) :
+    ∃ m, n ≤ m ∧ m ≤ 2880 * n ∧ (iter r n).1 = Spec.RRule.occ a m :=
+  iter_eq_spec_minutely_bhm ma h n hle
+
+/-- **`iter_eq_spec`, proved portion, SECONDLY with BYHOUR and / or BYMINUTE** (each absent or non-empty, no BYSECOND;
+    BYWEEKNO as in the other sub-daily theorems) under the explicit, decidable reachability hypothesis `reachableS a`: some
+    second of the grid — the orbit of the start under `+INTERVAL`, which repeats after at most 86400 steps — lies in a
+    listed hour and a listed minute.  `secondlyLoop` then stops at the LEAST such grid second within its own bound
+    86400 / gcd(INTERVAL, 86400) (`secondlyLoop_bhm`, `orbit_period_window`), and `n` turns correspond to `m` periods,
+    `n ≤ m ≤ 172800·n`.  On the complement the recurrence set is empty and the generator raises ValueError at the first
+    `next()` (allowed by the property: "raises ValueError when first iterated"). -/
+theorem iter_eq_spec_secondly_byhour_byminute_partial (a : Args) (r : Rule) (sa : SecondlyBHMArgs a)
+    (h : construct a = .ok r) (n : Nat)
+    (hle : ((Spec.RRule.startOrd a * 24 + a.dtstart.hh) * 60 + a.dtstart.mm) * 60 + a.dtstart.ss +
+      (172800 * n + 86400) * a.interval + 86399 < (maxOrdinal + 1) * 86400) :
+    ∃ m, n ≤ m ∧ m ≤ 172800 * n ∧ (iter r n).1 = Spec.RRule.occ a m :=
+  iter_eq_spec_secondly_bhm sa h n hle
+
+/-- **`iter_eq_spec`, proved portion, SECONDLY with BYSECOND** (any members — those outside 0..59 or off the grid are inert on
+    both sides —, BYHOUR / BYMINUTE absent or non-empty) under `reachableSS a`: some second of the grid has a listed hour,
+    minute and second.  The inner step of `secondlyLoop` is then `__mod_distance` (exact by `mod_distance_least`; it cannot
+    fall off its loop because the second-of-minute repeats with period dividing 60 and a listed one exists), a pass moves over
+    grid seconds whose second is unlisted, and the loop stops at the LEAST grid second with all three parts listed. -/
+theorem iter_eq_spec_secondly_bysecond_partial (a : Args) (r : Rule) (sa : SecondlyBSArgs a)
+    (h : construct a = .ok r) (n : Nat)
+    (hle : ((Spec.RRule.startOrd a * 24 + a.dtstart.hh) * 60 + a.dtstart.mm) * 60 + a.dtstart.ss +
+      (172800 * n + 86400) * a.interval + 86399 < (maxOrdinal + 1) * 86400) :
+    ∃ m, n ≤ m ∧ m ≤ 172800 * n ∧ (iter r n).1 = Spec.RRule.occ a m :=
+  iter_eq_spec_secondly_bysecond sa h n hle
+
+/-- **INTERVAL must be a positive integer** (fix D-C01-interval): `rrule.__init__` raises ValueError for `interval < 1`
+    whatever the other arguments are, so every constructed rule has `interval ≥ 1` — the hypothesis `1 ≤ a.interval` of the
+    theorems above is implied by `construct a = .ok r`.  (Before the fix `interval=0` yielded the start for ever — duplicates,
+    `list(rule)` with UNTIL never returned — and `interval < 0` yielded the start and then raised from `date.fromordinal`.) -/
+theorem construct_interval_positive (a : Args) :
+    (a.interval < 1 → construct a = .error .ValueError) ∧ (∀ r, construct a = .ok r → 1 ≤ a.interval) :=
+  ⟨construct_interval_ValueError a, fun r h => construct_interval_pos a r h⟩
+
+example : construct { freq := 3, dtstart := ⟨2024, 1, 1, 9, 0, 0, 0⟩, interval := 0 } = .error .ValueError := by decide +kernel
+example : construct { freq := 0, dtstart := ⟨2024, 1, 1, 9, 0, 0, 0⟩, interval := -1, count := some 3 } = .error .ValueError := by
+  decide +kernel
+
+/-- **`iter_eq_spec`, proved portion, MONTHLY with BYEASTER** (−80..250, plain BYDAY only, no BYWEEKNO, months inside 1583..4099) -/
+theorem iter_eq_spec_monthly_easter_partial (a : Args) (r : Rule) (ea : EasterMArgs a) (h : construct a = .ok r) (n : Nat)
+    (hlo : 1583 ≤ a.dtstart.y) (hm : (a.dtstart.y * 12 + (a.dtstart.m - 1) + n * a.interval) / 12 ≤ 4099) :
+    (iter r n).1 = Spec.RRule.occ a n :=
+  iter_eq_spec_monthly_easter ea h n hlo hm
+
+/-- **`iter_eq_spec`, proved portion, WEEKLY with BYEASTER** on the EXACT class −74..250: a week begun in late December reads the
+    7-day tail of the Easter mask of the OLD year, which is never marked for offsets ≤ 250 (`easter_yday_range`: Easter falls on
+    22 March .. 25 April), while the specification accepts Jan 1..6 of the new year exactly for offsets −115..−75 of the NEW
+    year's Easter — so the model is right precisely when no offset below −74 is listed (offsets −80..−75 under WEEKLY are part
+    of D-C01d: e.g. `rrule(WEEKLY, wkst=WE, dtstart=1817-12-31, byeaster=-75)` misses 1818-01-06).  No BYWEEKNO, BYSETPOS only with
+    the start on the week start, UNTIL not before the start, every week inside 1583..4099. -/
+theorem iter_eq_spec_weekly_easter_partial (a : Args) (r : Rule) (wa : WeeklyEArgs a) (h : construct a = .ok r) (n : Nat)
+    (hlo : 1583 ≤ a.dtstart.y) (hn : W0 a + 7 * (n * a.interval) + 7 ≤ Cal.toOrdinal 4099 12 31 + 1) :
+    (iter r n).1 = Spec.RRule.occ a n :=
+  iter_eq_spec_weekly_easter wa h n hlo hn
+
+/-- **`iter_eq_spec`, proved portion, BYEASTER below YEARLY**: DAILY, HOURLY (with or without BYHOUR), MINUTELY (plain, BYMINUTE,
+    BYHOUR, both) and SECONDLY (plain, BYHOUR / BYMINUTE, BYSECOND) with BYEASTER offsets −80..250 (the complement of D-C01d),
+    no BYWEEKNO, every visited day inside 1583-01-01 .. 4099-12-31 (where C19 proves `easter.easter` canonical), everything else as
+    in the corresponding family without BYEASTER (any BYMONTH / BYMONTHDAY non-zero / BYYEARDAY / BYDAY / time parts / BYSETPOS /
+    COUNT / UNTIL; the same reachability hypotheses and the same `periodsPerTurn`).  One abstraction (Proofs/RRuleEFilter.lean):
+    `rebuild` keeps an invariant under which the BY-filter of a day is `simpleOk ∧ (date − Easter of its year ∈ BYEASTER)`, which
+    is the specification's `dateOk`; the family proofs are the ones without BYEASTER with that filter lemma.
+    (`Family.isEasterSub f`: `f` is one of dailyE … secondlyBysecondE; `SupportedBy` / `inRange` spell the hypotheses out.) -/
+theorem iter_eq_spec_byeaster_below_yearly_partial (a : Args) (r : Rule) (h : construct a = .ok r) (f : Family)
+    (_hf : f.isEasterSub = true) (hs : SupportedBy a f) (n : Nat) (hr : inRange a f n) :
+    ∃ m, n ≤ m ∧ m ≤ f.periodsPerTurn * n ∧ (iter r n).1 = Spec.RRule.occ a m :=
+  iter_eq_spec_supported a r h f hs n hr
+
+/-- … its DAILY instance spelled out: exactly the specification's recurrence set, period by period -/
+theorem iter_eq_spec_daily_easter_partial (a : Args) (r : Rule) (ea : DailyEArgs a) (h : construct a = .ok r) (n : Nat)
+    (hlo : 1583 ≤ a.dtstart.y) (hn : Spec.RRule.startOrd a + n * a.interval ≤ Cal.toOrdinal 4099 12 31) :
+    (iter r n).1 = Spec.RRule.occ a n :=
+  iter_eq_spec_daily_easter ea h n hlo hn
+
 /-- **`iter_eq_spec` for every supported argument set** — the summary of the family theorems above.
     `SupportedBy a f` (Spec/RRuleSupported.lean) is a decidable condition on the arguments alone, the union of
     the proved families: DAILY, WEEKLY (BYSETPOS only with the start on the week start = outside D-C01e),
     YEARLY / MONTHLY with plain BYDAY, MONTHLY / YEARLY / YEARLY+BYMONTH with nth BYDAY only (= outside D-C01a),
     YEARLY with BYEASTER −80..250 (outside D-C01d), YEARLY with BYWEEKNO outside D-C01c, HOURLY with or
-    without BYHOUR, MINUTELY without BYHOUR (with or without BYMINUTE), SECONDLY without BYHOUR / BYMINUTE / BYSECOND; always
+    without BYHOUR, MINUTELY without BYHOUR (with or without BYMINUTE) or with BYHOUR alone, SECONDLY with any combination of
+    BYHOUR / BYMINUTE / BYSECOND (reachability of a listed grid second as a decidable hypothesis); always
     INTERVAL ≥ 1, a valid start, no zero in BYMONTHDAY.  `inRange` keeps the first `n` turns inside
     datetime's range.  `m = n` for the calendar frequencies.  The driver op `rrule.supported` evaluates
     `family`, so each run of the check records which share of its sampled rules is covered by this theorem
@@ -692,10 +902,44 @@ example : ((match construct { freq := 4, dtstart := dt 2024 1 1 9, interval := 7
 example : MinutelyByArgs { freq := 5, dtstart := dt 2024 1 1 9, interval := 25, byminute := some [0, 30] } :=
   ⟨rfl, by decide, by decide, Or.inl rfl, rfl, by intro x hx; simp at hx, rfl, ⟨[0, 30], rfl, by decide⟩,
    by intro x hx; simp at hx⟩
+-- a MinutelyBHMArgs instance: every 25 minutes, only at 9h / 17h and :00 / :30 (the start itself is listed)
+example : MinutelyBHMArgs { freq := 5, dtstart := dt 2024 1 1 9, interval := 25, byhour := some [9, 17], byminute := some [0, 30] } :=
+  ⟨rfl, by decide, by decide, Or.inl rfl, rfl, by intro x hx; simp at hx, Or.inr ⟨[9, 17], rfl, by decide⟩, ⟨[0, 30], rfl⟩,
+   by intro x hx; simp at hx, List.any_eq_true.mpr ⟨0, List.mem_range.mpr (by omega), by decide⟩⟩
+-- a SecondlyBHMArgs instance: every 45 s, only in minutes :00 and :30 (the start itself is listed: witness j = 0)
+example : SecondlyBHMArgs { freq := 6, dtstart := dt 2024 1 1 9, interval := 45, byminute := some [0, 30] } :=
+  ⟨rfl, by decide, by decide, Or.inl rfl, rfl, by intro x hx; simp at hx, Or.inl rfl, Or.inr ⟨[0, 30], rfl, by decide⟩, rfl,
+   List.any_eq_true.mpr ⟨0, List.mem_range.mpr (by omega), by decide⟩⟩
+example : ((match construct { freq := 6, dtstart := dt 2024 1 1 9, interval := 45, byminute := some [0, 30] } with
+            | .ok r => (iterDT r 4).1 | .error _ => []).map (fun (t : DT) => (t.hh, t.mm, t.ss))) =
+    [(9, 0, 0), (9, 0, 45), (9, 30, 0), (9, 30, 45)] := by decide +kernel
+-- a SecondlyBSArgs instance: every 7 s, only at second 21 (first met after 3 steps)
+example : SecondlyBSArgs { freq := 6, dtstart := dt 2024 1 1 9, interval := 7, bysecond := some [21] } :=
+  ⟨rfl, by decide, by decide, Or.inl rfl, rfl, by intro x hx; simp at hx, Or.inl rfl, Or.inl rfl, ⟨[21], rfl⟩,
+   List.any_eq_true.mpr ⟨3, List.mem_range.mpr (by omega), by decide⟩⟩
 -- a WeeknoMArgs instance: the Mondays of weeks 10 and 20, scanned month by month
 example : WeeknoMArgs { freq := 1, dtstart := dt 2024 1 1 9, byweekno := some [10, 20], byweekday := some [(0, 0)] } :=
   ⟨rfl, by decide, by decide, by decide, by intro x hx; simp at hx, rfl, by decide,
    ⟨[10, 20], rfl, by decide, ⟨by decide, by decide⟩⟩⟩
+-- EasterMArgs / WeeklyEArgs instances
+example : EasterMArgs { freq := 1, dtstart := dt 2024 1 1 9, byeaster := some [-2, 1] } :=
+  ⟨rfl, by decide, by decide, rfl, by intro x hx; simp at hx, by intro w hw; simp at hw, ⟨[-2, 1], rfl, by decide, by decide⟩⟩
+example : WeeklyEArgs { freq := 2, dtstart := dt 2024 12 30 9, byeaster := some [-74, -46, 1, 250] } :=
+  ⟨rfl, by decide, by decide, rfl, by intro x hx; simp at hx, ⟨[-74, -46, 1, 250], rfl, by decide, by decide⟩,
+   Or.inl rfl, by decide, by intro u hu; simp at hu⟩
+-- a DailyEArgs instance: Good Friday and Easter Monday, scanned day by day; and the classifier on sub-daily BYEASTER rules
+example : DailyEArgs { freq := 3, dtstart := dt 2024 1 1 10, byeaster := some [-2, 1] } :=
+  ⟨rfl, by decide, by decide, rfl, by intro x hx; simp at hx, ⟨[-2, 1], rfl, by decide, by decide⟩⟩
+example : dates (construct { freq := 3, dtstart := dt 2024 1 1 10, byeaster := some [-2, 1] }) 500
+    = [(2024, 3, 29), (2024, 4, 1), (2025, 4, 18), (2025, 4, 21)] := by decide +kernel
+example : family { freq := 3, dtstart := dt 2024 1 1 10, byeaster := some [-2, 1] } = some .dailyE := by decide +kernel
+example : family { freq := 4, dtstart := dt 2024 1 1 10, interval := 6, byeaster := some [0], byminute := some [0, 30] }
+    = some .hourlyE := by decide +kernel
+example : Family.isEasterSub .hourlyE = true := rfl
+-- a WeeklyWArgs instance: weeks 1, 52 and the last week, from a week that straddles New Year (Mon 2024-12-30)
+example : WeeklyWArgs { freq := 2, dtstart := dt 2024 12 30 9, byweekno := some [1, 52, -1] } :=
+  ⟨rfl, by decide, by decide, rfl, by intro x hx; simp at hx, ⟨[1, 52, -1], rfl, by decide, ⟨by decide, by decide⟩⟩,
+   Or.inl rfl, by decide, by intro u hu; simp at hu⟩
 -- a DailyWArgs instance: every day of ISO week 1 and of the last week of the year
 example : DailyWArgs { freq := 3, dtstart := dt 2024 12 1 9, byweekno := some [1, -1] } :=
   ⟨rfl, by decide, by decide, Or.inr ⟨[1, -1], rfl, by decide, ⟨by decide, by decide⟩, by decide, by decide⟩, rfl,
@@ -709,7 +953,7 @@ example : family { freq := 0, dtstart := dt 1997 5 12 9, byweekno := some [20], 
     = some .yearlyWeekno := by decide +kernel
 example : family { freq := 1, dtstart := dt 2020 1 1 9, byweekday := some [(0, 0), (1, 1)] } = none := by decide +kernel
 example : family { freq := 5, dtstart := dt 2020 1 1 9, byhour := some [9] } = some .minutelyByhour := by decide +kernel
--- D-C01g: MINUTELY every 120 minutes from 00:00 never meets hour 1: not supported, and the model raises ValueError
+-- former D-C01g (withdrawn, allowed by the property): MINUTELY every 120 minutes from 00:00 never meets hour 1: not supported, and the model raises ValueError
 example : family { freq := 5, interval := 120, dtstart := dt 2024 1 1, byhour := some [1] } = none := by decide +kernel
 example : (match construct { freq := 5, interval := 120, dtstart := dt 2024 1 1, byhour := some [1] } with
            | .ok r => (iter r 1).2 | .error e => .error e) = .error .ValueError := by decide +kernel
